@@ -25,6 +25,9 @@ Per core (Python Emulator, Rust LlamaExecutor; never compared with each other):
   (CoreRuntime): step(n) vs step(1) x n; a fresh machine given the architectural state of a machine with history
   under a generated overlay map; two histories that reach the same machine state (c07_runtime.py, c07_machine.py).
 
+* entry-history: a fresh Rust machine driven through either public entry point (CoreRuntime::step,
+  AsyncRuntimeRunner::run_instructions) behaves the same whatever finished use of the crate's async machinery
+  (block_on, AsyncDriver, earlier runners) happened on the thread before (c07_entry.py; reference = pristine thread).
 * pymachine-history / pymachine-diagnostics / pymachine-run-slicing: the same statement for the Python PC-E500 machine
   (PCE500Emulator): polling programs with host key events; fresh machine given the state, twin with diagnostic API
   calls, run(n) slicing (c07_pymachine.py).
@@ -86,7 +89,12 @@ RULE = ("probe cases: every (prefix|none, opcode) pair of decoder-accepted encod
         "decoder-accepted encodings, labels, label references) assembled in a pristine process vs after a generated "
         "history (earlier assemble() calls with a new / re-used Assembler, earlier sections of the same source, a rejected "
         "earlier source, every 12th case the blocks of the 11 preceding cases) built from the same (prefix, opcode) with other operand forms; non-trivial when the block has a "
-        "referenced label after a statement whose opcode the history uses with another encoded length.")
+        "referenced label after a statement whose opcode the history uses with another encoded length.  "
+        "Entry point x thread history (entry-history): machine scenario x entry point (CoreRuntime::step / "
+        "AsyncRuntimeRunner::run_instructions) x call partition x slice length x generated finished history of the "
+        "crate's async machinery on the same thread (block_on futures emitting generated DriverEvents incl. ids 0..3, "
+        "dropped AsyncDriver instances with leftover tasks / events, earlier runners, earlier step runs) vs the same calls "
+        "on a pristine thread; non-trivial when the history is not empty and the reference executed >= 1 instruction.")
 
 REG_FIELDS = ("BA", "I", "X", "Y", "U", "S", "PC", "F")
 CALL_FAMILY = {"CALL", "CALLF", "RET", "RETF", "RETI", "IR"}
@@ -704,6 +712,13 @@ def _mach_shard(task: Tuple[int, int, int, int]) -> Report:
     return MC.run_shard(seed, shard, n_mem, n_conv)
 
 
+def _entry_shard(task: Tuple[int, int, int]) -> Report:
+    from . import c07_entry as EN
+
+    seed, shard, n = task
+    return EN.run_shard(seed, shard, n)
+
+
 def _pym_shard(task: Tuple[int, int, int, bool]) -> Report:
     from . import c07_pymachine as PM
 
@@ -732,6 +747,7 @@ def run(ctx: Ctx) -> Report:
     n_rts = ctx.pick(120, 1200)
     reports += ctx.pmap(_rts_shard, [(ctx.seed, i, n_rts) for i in range(16)])
     reports += ctx.pmap(_mach_shard, [(ctx.seed, i, ctx.pick(60, 500), ctx.pick(150, 1500)) for i in range(16)])
+    reports += ctx.pmap(_entry_shard, [(ctx.seed, i, ctx.pick(40, 400)) for i in range(16)])
     reports += ctx.pmap(_pym_shard, [(ctx.seed, i, ctx.pick(40, 260), ctx.tier != "quick") for i in range(16)])
     # the assembler shards run in a pool of their own: its workers are forked from this process, which never assembles
     reports += ctx.pmap(_asm_shard, [(ctx.seed, i, ctx.pick(36, 220)) for i in range(16)])
@@ -769,6 +785,13 @@ def run(ctx: Ctx) -> Report:
         "keyboard FIFO length, ON-key level) is equal; ignored at the join: irq_source, last_fired, last_irq_src, "
         "irq_isr/irq_imr mirrors (host-side bookkeeping); compared afterwards: registers, F, IMR, ISR, IMEM 00-EE, "
         "S and U stack windows, power state.  Tails contain no IR and no RETI outside a delivered handler",
+        "entry-history: a fresh CoreRuntime driven through CoreRuntime::step or AsyncRuntimeRunner::run_instructions "
+        "(generated call partition, slice length, one runner or a new runner per call) on a new thread after a generated, "
+        "finished history of the crate's public async machinery (block_on of display / sleep / timer futures emitting "
+        "generated DriverEvents, AsyncDriver instances dropped with leftover tasks and events, earlier runners, earlier "
+        "step runs) vs the same calls on a new thread where nothing ran; compared after every call: call result (Ok + "
+        "counts / Err text) and the machine observation (last call: whole IMEM + hash of external memory); the two entry "
+        "points are never compared with each other; both threads are joined inside the case",
         "Python machine (pymachine-*): compared after every step: registers, F, halted, IMR/ISR, whole IMEM, S and U stack "
         "windows, CRC of external memory (last compared step), keyboard FIFO / key states / latch, irq pending / "
         "in-interrupt, cycle and instruction counters, timer deadlines.  Transferred into the fresh machine: exactly the "
@@ -796,6 +819,10 @@ def replay(ctx: Ctx, case: Dict[str, Any]) -> List[Violation]:
         from . import c07_machine as MC
 
         return MC.replay_case(case)
+    if case.get("kind") == "entry-history":
+        from . import c07_entry as EN
+
+        return EN.replay_case(case)
     if case.get("kind") == "pymachine-history":
         from . import c07_pymachine as PM
 
@@ -825,6 +852,10 @@ def shrink(ctx: Ctx, v: Violation) -> Violation:
         from . import c07_machine as MC
 
         return MC.shrink(v)
+    if kind == "entry-history":
+        from . import c07_entry as EN
+
+        return EN.shrink(v)
     if kind == "pymachine-history":
         from . import c07_pymachine as PM
 
